@@ -41,9 +41,30 @@ RECURSIVE Uniq(_)
 Uniq(s) == IF Len(s) <= 1 THEN s
            ELSE IF s[1] = s[2] THEN Uniq(Tail(s)) ELSE <<s[1]>> \o Uniq(Tail(s))
 
+(* The two arrays of sort_int_nodups: every executed pass distributes from `in` to `work` and swaps the   *)
+(* two pointers, so after an odd number of executed passes the sorted data sits in the scratch array; *)
+(* uniq(p, out, n) then squeezes duplicates out *and* brings the data back to the caller's array p.    *)
+(* Deviation "UniqEarlyReturnNoCopy": uniq returns at once when there is no duplicate - without the    *)
+(* copy, p keeps what it held before the last executed pass.                                          *)
+RECURSIVE PassesBuf(_, _, _, _, _)
+PassesBuf(a, b, inA, d, signedKeys) ==       \* a = caller's array, b = scratch; inA: the current data is in a
+  IF d = W THEN [a |-> a, b |-> b, inA |-> inA]
+  ELSE LET signAware == IF "SignAwareFromDigit1" \in Dev THEN d >= 1 ELSE d = W - 1
+           useSigned == signAware /\ (signedKeys \/ "SignedMSBForUnsigned" \in Dev)
+           order == IF useSigned THEN SignAware ELSE Asc
+           cur == IF inA THEN a ELSE b
+       IN IF AllSame(cur, d) THEN PassesBuf(a, b, inA, d + 1, signedKeys)
+          ELSE LET nxt == Concat(cur, d, order) IN
+               IF inA THEN PassesBuf(a, nxt, FALSE, d + 1, signedKeys)
+               ELSE PassesBuf(nxt, b, TRUE, d + 1, signedKeys)
+NoDup(sq) == \A j \in 1..(Len(sq) - 1) : sq[j] # sq[j + 1]
+SortNoDups(seq, signedKeys) ==
+  LET r == PassesBuf(seq, seq, TRUE, 0, signedKeys)
+      sorted == IF r.inA THEN r.a ELSE r.b
+  IN IF "UniqEarlyReturnNoCopy" \in Dev /\ NoDup(sorted) /\ ~r.inA THEN r.a ELSE Uniq(sorted)
 \* the promise: the sorted duplicate-free union
 Promise(seq, signedKeys) ==
-  LET r == Uniq(RadixSort(seq, signedKeys)) IN
+  LET r == SortNoDups(seq, signedKeys) IN
   /\ \A j \in 1..(Len(r) - 1) : Val(r[j], signedKeys) < Val(r[j + 1], signedKeys)
   /\ {r[j] : j \in 1..Len(r)} = {seq[j] : j \in 1..Len(seq)}
 
@@ -52,4 +73,5 @@ Init == s \in UNION {[1..n -> 0..(Top - 1)] : n \in 0..MaxLen}
 Next == UNCHANGED s
 Spec == Init /\ [][Next]_s
 SortOK == Promise(s, TRUE) /\ Promise(s, FALSE)
+BufferOK == SortNoDups(s, TRUE) = Uniq(RadixSort(s, TRUE)) /\ SortNoDups(s, FALSE) = Uniq(RadixSort(s, FALSE))
 =============================================================================
